@@ -356,10 +356,26 @@ def run(tier):
             nctx += 1
             v.distinct(("ctx", sline, ctx, m))
     stats["in_program_cases"] = nctx
+    # ---------------- (e) the documented forms in the OTHER assembly modes: under chunk fitting a line that does not fit the rest of its
+    # chunk is padded and encoded a second time, the counting entry point has its own loop - the narrowing / rewriting decision must be
+    # the same there, under every option combination (enc.mode_crossing: bytes must equal the line's plain encoding under that combination)
+    E_LINES = list(SENS)
+    for reg in ("rax", "rbx", "rsp", "r8", "r12", "r15"):
+        for litx in ("0x7fffffff", "0x000000007fffffff", "0x00000000ffffffff", "0xffffffff", "4294967295", "0x80000000", "0x0000000100000000", "1", "0x0000000000000000", "-1", "0x7FFFFFFF", "00000000002147483647"):
+            E_LINES.append("mov %s, %s" % (reg, litx))
+    for mn_t in ("lea r10, %s", "mov rdx, %s", "add qword %s, 5", "inc dword %s", "push qword %s", "vmovdqu ymm9, %s", "cmovne rcx, %s", "sete %s"):
+        for msh in ("[rbx+rsp]", "[r13+rsp+0x10]", "[ebx+esp]", "[2*rcx]", "[2*r9+8]", "[rdx*2-0x80]", "[1*rsi]", "[4*rdi]", "[2*r13d]"):
+            E_LINES.append(mn_t % msh)
+    E_LINES = sorted(set(E_LINES))
+    eitems = [(m, l, 0) for l in E_LINES for m in enc.COMBOS]
+    eres = common.run_lines(binary, eitems, tag="c11e")
+    acc = [({"text": l, "fam": "mode_rules"}, m, r["bytes"]) for (m, l, _), r in zip(eitems, eres) if "crash" not in r and r["rc"] == 0 and r["bytes"]]
+    stats["other_modes_checks_ok"] = enc.mode_crossing(v, binary, acc)
+    stats["other_modes_lines_x_combos"] = len(acc)
     v.cov["rule"] = ("(a) mov r64,imm for all 16 registers x boundary/random 64-bit values x all spellings x all 12 option combinations: decoded destination width must follow the narrowing model (NASM: 0<=v<=0xffffffff; "
                      "STRICT: never; SMART: in range and not a 16-digit hex literal), decoded value == v, NASM mode must decode like nasm's own output, SIB options must not matter; (b) lea with [base+rsp|esp+d] and "
                      "[s*idx+d] for every base/index x displacements x 12 combos: decoded address == written, raw ModRM/SIB literal in STRICT and rewritten in NASM (scales 4/8: no rewriting), unrelated options "
-                     "must not matter; (c) %d other lines from the C01-C05 generators x 12 combos: identical bytes in all combos that agree on the line's documented sensitive dimension(s); (d) each option-sensitive line preceded in the same call by each of 19 context lines, under all 12 combos: same bytes as alone" % len(texts))
+                     "must not matter; (c) %d other lines from the C01-C05 generators x 12 combos: identical bytes in all combos that agree on the line's documented sensitive dimension(s); (d) each option-sensitive line preceded in the same call by each of 19 context lines, under all 12 combos: same bytes as alone; (e) ~150 option-sensitive lines x 12 combos re-assembled under chunk fitting (padded, encoded a second time) and through the counting entry point: same bytes as plain under that combination" % len(texts))
     v.cov["exhaustive"] = False
     v.cov.update(stats)
     return v.finish(None, narrowed_seen > 500 and kept_seen > 500 and lit > 200 and rew > 200 and ident > 5000, "too little observed: %r" % stats)
